@@ -3,6 +3,7 @@ package inputs
 import (
 	"encoding/hex"
 	"fmt"
+	"strings"
 	"sync"
 
 	"github.com/0chain/common/core/util"
@@ -71,11 +72,20 @@ func C19(tier rt.Tier) int {
 	for _, l := range []int{2, 62, 63, 65, 66, 96, 127, 128, 129, 200} {
 		fams = append(fams, &family{name: fmt.Sprintf("%d-character leaf hashes", l), length: l, maxN: smallN})
 	}
+	// spellings: leaf hashes are strings; upper-case hex, and pairs of leaves that differ only in letter case
+	fams = append(fams, &family{name: "64-character upper-case hashes", length: -1, maxN: smallN}, &family{name: "64-character hashes in pairs that differ only in letter case", length: -2, maxN: smallN})
 	for _, f := range fams {
 		f.leaves = make([]string, f.maxN)
 		for i := range f.leaves {
 			h := hhex(fmt.Sprintf("leaf-%d", i))
 			switch {
+			case f.length == -1:
+				f.leaves[i] = strings.ToUpper(h)
+			case f.length == -2:
+				f.leaves[i] = "ab" + hhex(fmt.Sprintf("leaf-%d", i/2))[2:]
+				if i%2 == 1 {
+					f.leaves[i] = strings.ToUpper(f.leaves[i])
+				}
 			case f.length == 64:
 				f.leaves[i] = h
 			case f.length == 2:
